@@ -2,9 +2,9 @@
    Only statements, each closed by [exact], each followed by Print Assumptions.
    [entries] is the table generated from every IsReadOnly() method of sql/plan/*.go (gen/C42Flags.v);
    [spec_of]/[node_writes]/[inert] are the hand-written specification (Plan/ReadOnly.v). *)
-From Coq Require Import List String Bool.
+From Coq Require Import List String Bool NArith.
 Import ListNotations.
-From GMS Require Import Plan.C42Base gen.C42Flags Plan.ReadOnly Plan.ReadOnlyProofs.
+From GMS Require Import Plan.C42Base gen.C42Flags Plan.ReadOnly Plan.ReadOnlyProofs Plan.C42Validators.
 Open Scope string_scope.
 
 (* every node kind present in the source is classified by the specification (a new node type breaks this) *)
@@ -72,3 +72,137 @@ Example C42_nonvacuous :
       exec_node t w /\ node_writes w = true /\ is_ro 5 t = Ro false).
 Proof. exact nonvacuous. Qed.
 Print Assumptions C42_nonvacuous.
+
+(* ===== the analyzer rules behind START TRANSACTION READ ONLY and read-only databases (Plan/C42Validators.v) =====
+   [vt] is the tree transform.InspectWithOpaque walks; [ro_txn_valid] / [ro_db_valid] mirror the two rules of
+   sql/analyzer/validation_rules.go, callbacks and walks included; [ddl_kinds] is generated from plan.IsDDLNode. *)
+
+(* validateReadOnlyTransaction, exactly: the verdict depends on the kind of the ROOT alone (the type switch inside the
+   walk re-tests the root); below UPDATE / DELETE / UNLOCK TABLES and in the Destination of INSERT the table search
+   decides, LOCK TABLES is refused, CREATE TABLE unless temporary is let through, everything else is let through *)
+Theorem C42_txn_validator_characterised : forall t,
+  ro_txn_valid t = true <->
+  match txn_class (vkind t) with
+  | TSearch => tsearch true t = true
+  | TInsert => fold_left tsearch (vdest t) true = true
+  | TLock => False
+  | TCreateTable => vtemp t = false
+  | TOther => True
+  end.
+Proof. exact ro_txn_valid_iff. Qed.
+Print Assumptions C42_txn_validator_characterised.
+
+(* the table search over trees of any shape: all tables permanent => accepted iff no table is walked *)
+Theorem C42_txn_table_search_permanent : forall t v, all_perm t = true -> tsearch v t = v && no_rt t.
+Proof. exact tsearch_perm. Qed.
+Print Assumptions C42_txn_table_search_permanent.
+
+(* every INSERT / UPDATE / DELETE at the root whose target holds a table, all of them permanent, is rejected with
+   ErrReadOnlyTransaction inside a read-only transaction (trees of unbounded depth and width) *)
+Theorem C42_txn_validator_rejects_root_dml : forall t,
+  dml_root (vkind t) = true -> forallb all_perm (target t) = true -> forallb no_rt (target t) = false ->
+  ro_txn_valid t = false /\ (forall e, txn_rule true true e t = 1%N).
+Proof. exact txn_rejects_root_dml. Qed.
+Print Assumptions C42_txn_validator_rejects_root_dml.
+
+(* "and nothing else" for the exemption: DML that only touches temporary tables is let through *)
+Theorem C42_txn_validator_allows_temporary_dml : forall t,
+  dml_root (vkind t) = true -> forallb all_temp (target t) = true -> ro_txn_valid t = true.
+Proof. exact txn_allows_temporary_dml. Qed.
+Print Assumptions C42_txn_validator_allows_temporary_dml.
+
+(* writes that are not at the root pass: CALL (finding txn/write-took-effect/Call; Children() of Call is empty, the
+   stored body is not even walked), an INSERT into a permanent table nested under a non-DML root, and under a root that
+   plan.IsDDLNode lists (Block); the same INSERT at the root is rejected *)
+Theorem C42_txn_validator_rejects_every_write_refuted :
+  (vkind w_call = "Call" /\ forall kids dest, ro_txn_valid (V "Call" false 0 dest kids) = true)
+  /\ (has_write_below w_nested = true /\ ro_txn_valid w_nested = true)
+  /\ (has_write_below w_ddl_nested = true /\ ro_txn_valid w_ddl_nested = true)
+  /\ (ro_txn_valid w_insert = false).
+Proof. exact txn_write_not_at_root. Qed.
+Print Assumptions C42_txn_validator_rejects_every_write_refuted.
+
+Theorem C42_txn_validator_other_roots_pass : forall t, txn_class (vkind t) = TOther -> ro_txn_valid t = true.
+Proof. exact txn_other_root_valid. Qed.
+Print Assumptions C42_txn_validator_other_roots_pass.
+
+(* model only (the memory backend has no temporary tables): the search ASSIGNS the verdict at every table, so a
+   temporary table walked after a permanent one resets it -- UPDATE over a join of a permanent and a temporary table *)
+Theorem C42_txn_validator_later_temporary_table_resets_refuted :
+  writes_permanent (V "Update" false 0 [] [perm_rt]) = true
+  /\ allk (fun n => negb (is_rt n) || negb (vtemp n)) w_reset = false /\ no_rt w_reset = false /\ ro_txn_valid w_reset = true.
+Proof. exact txn_later_temp_resets. Qed.
+Print Assumptions C42_txn_validator_later_temporary_table_resets_refuted.
+
+(* validateReadOnlyDatabase, exactly ([db_clean]: no ResolvedTable of a read-only database is walked) *)
+Theorem C42_db_validator_characterised : forall e t,
+  ro_db_valid e t =
+  match db_class (vkind t) with
+  | DSearch => db_clean e t
+  | DInsert => forallb (db_clean e) (vdest t)
+  | DCreateTable => negb (bad_class e (vro t))
+  | DOther => if is_ddl (vkind t) then db_clean e t else true
+  end.
+Proof. exact ro_db_valid_char. Qed.
+Print Assumptions C42_db_validator_characterised.
+
+(* the statement kinds it covers are rejected (ErrReadOnlyDatabase, or ErrProcedureCallAsOfReadOnly under CALL ... AS OF) *)
+Theorem C42_db_validator_rejects_covered_kinds : forall e t,
+  (db_covered (vkind t) = true /\ db_clean e t = false)
+  \/ (vkind t = "InsertInto" /\ forallb (db_clean e) (vdest t) = false)
+  \/ (vkind t = "CreateTable" /\ bad_class e (vro t) = true) ->
+  ro_db_valid e t = false /\ db_rule e t = (if e then 3%N else 2%N).
+Proof. exact db_rejects_covered. Qed.
+Print Assumptions C42_db_validator_rejects_covered_kinds.
+
+(* ... and these are its two blind spots, for plans of any shape *)
+Theorem C42_db_validator_unlisted_root_passes : forall e t,
+  db_class (vkind t) = DOther -> is_ddl (vkind t) = false -> ro_db_valid e t = true.
+Proof. exact db_other_root_valid. Qed.
+Print Assumptions C42_db_validator_unlisted_root_passes.
+
+Theorem C42_db_validator_plan_without_table_passes : forall e t,
+  db_covered (vkind t) = true -> no_rt t = true -> ro_db_valid e t = true.
+Proof. exact db_no_table_valid. Qed.
+Print Assumptions C42_db_validator_plan_without_table_passes.
+
+(* the generated case list of plan.IsDDLNode against the specification: every database-level DDL kind is a writer,
+   every listed kind exists and writes (Block apart), and exactly these schema-changing kinds are NOT listed *)
+Theorem C42_ddl_list_missing_kinds :
+  forallb (fun k => mem k writers) db_ddl_writers = true
+  /\ forallb (fun k => mem k (map e_kind entries)) ddl_kinds = true
+  /\ forallb (fun k => mem k writers || String.eqb k "Block") ddl_kinds = true
+  /\ missing_from_ddl_list =
+       ["AlterAutoIncrement"; "AlterDefaultDrop"; "AlterDefaultSet"; "AlterEvent"; "AlterTableCollation";
+        "AlterTableComment"; "DropConstraint"; "RenameForeignKey"; "SingleDropView"]
+  /\ forallb (fun k => negb (is_ddl k) && match db_class k with DOther => true | _ => false end) missing_from_ddl_list = true.
+Proof. exact ddl_list_facts. Qed.
+Print Assumptions C42_ddl_list_missing_kinds.
+
+(* finding rodb/write-took-effect/ddl-root-not-in-IsDDLNode: under each missing root a table of the read-only database
+   is in the plan and the statement is accepted *)
+Theorem C42_db_validator_ddl_root_not_listed_refuted :
+  forallb (fun k => ro_db_valid false (V k false 0 [] [ro_rt]) && negb (db_clean false (V k false 0 [] [ro_rt])))
+          missing_from_ddl_list = true.
+Proof. exact db_missing_roots_accept. Qed.
+Print Assumptions C42_db_validator_ddl_root_not_listed_refuted.
+
+(* finding rodb/write-took-effect/ddl-plan-without-resolved-table: listed, schema-changing roots whose plan (as the
+   engine builds it) holds no ResolvedTable are accepted *)
+Theorem C42_db_validator_ddl_without_table_refuted :
+  forallb (fun k => is_ddl k && mem k db_ddl_writers && db_covered k && ro_db_valid false (V k false 0 [] [])) ddl_without_table = true.
+Proof. exact db_tableless_ddl_accept. Qed.
+Print Assumptions C42_db_validator_ddl_without_table_refuted.
+
+Example C42_db_validator_nonvacuous :
+  ro_db_valid false (V "Update" false 0 [] [V "Filter" false 0 [] [ro_rt]]) = false
+  /\ ro_db_valid false (V "InsertInto" false 0 [perm_rt] [perm_rt; V "Project" false 0 [] [ro_rt]]) = true
+  /\ ro_db_valid false (V "InsertInto" false 0 [ro_rt] [ro_rt]) = false
+  /\ ro_db_valid false (V "DropTable" false 0 [] [ro_rt]) = false
+  /\ ro_db_valid false (V "CreateTable" false 2 [] []) = false
+  /\ ro_db_valid false (V "CreateTable" false 0 [] [V "Project" false 0 [] [ro_rt]]) = true
+  /\ ro_db_valid false (V "Project" false 0 [] [ro_rt]) = true
+  /\ ro_db_valid true (V "Update" false 0 [] [V "ResolvedTable" false 1 [] []]) = false
+  /\ db_rule true (V "Update" false 0 [] [V "ResolvedTable" false 1 [] []]) = 3%N.
+Proof. exact db_nonvacuous. Qed.
+Print Assumptions C42_db_validator_nonvacuous.
